@@ -447,7 +447,8 @@ def _insert_sensor_history_stage(
   if period > 0.0:
     # interval mode: check if condition is satisfied
     time_prev = history_out[worldid, buf_offset]  # user slot stores time_prev
-    if time_prev + period <= t:
+    # float32 time accumulates round-off: without slack a tick that falls exactly on a step (interval = k * timestep) is seen one step late
+    if time_prev + period <= t + 1.0e-6 * wp.max(wp.abs(t), 1.0):
       # advance time_prev by exact period
       history_out[worldid, buf_offset] = time_prev + period
       # insert sensor value
@@ -501,7 +502,7 @@ def _apply_sensor_delay_kernel(
     period = interval_val[0]
     if period > 0.0:
       time_prev = history_in[worldid, buf_offset]  # user slot
-      if time_prev + period > t:
+      if time_prev + period > t + 1.0e-6 * wp.max(wp.abs(t), 1.0):
         # interval condition not satisfied: read from buffer
         _history_read_vector(sensor_adr[sid], history_in, worldid, buf_offset, nsample, dim, t, interp, sensordata_out)
       # else: interval condition satisfied, keep computed value
